@@ -907,7 +907,20 @@ fn main() {
     }
     if let Some(p) = run.replay.clone() {
         let v: serde_json::Value = serde_json::from_slice(&std::fs::read(&p).expect("replay file")).expect("json");
-        let c: Case = serde_json::from_value(v["witness"]["case"].clone()).expect("case");
+        let Ok(c) = serde_json::from_value::<Case>(v["witness"]["case"].clone()) else {
+            // real-stack witnesses are fixed directed cases: they are re-executed by every normal run
+            match real_stack_cases() {
+                Ok(list) => {
+                    let hits: Vec<_> = list.iter().filter_map(|x| x.1.clone()).collect();
+                    println!("replay (real-stack directed cases): violations={hits:?}");
+                    std::process::exit(if hits.is_empty() { 0 } else { 1 });
+                }
+                Err(e) => {
+                    println!("INCONCLUSIVE: property=C26 replay of real-stack cases impossible: {e}");
+                    std::process::exit(2);
+                }
+            }
+        };
         let e = execute(&c);
         let j = judge(&c, &e);
         println!("replay: outcome={} records={:?}\nreplay: violations={:?}", e.outcome, e.records, j.violations);
